@@ -65,6 +65,9 @@ const (
 	zzxSymbolicT0  = 1700000000 // genesis timestamp used under the engine (natively derived from the wall clock)
 )
 
+// zzxSkipGenesis: zzxNewNode returns before it processes the genesis block.
+var zzxSkipGenesis bool
+
 // zzxNowVal is what the stubbed time.Now returns under the engine.
 var zzxNowVal int64
 
@@ -254,6 +257,13 @@ func zzxNewNode(t *zzT, nvals, extra int, slotsAhead int) *zzxNode {
 	}
 	if err := n.ex.liskBFT.Init(4); err != nil {
 		t.Fail("liskBFT init")
+	}
+	if zzxSkipGenesis {
+		// (the genesis step itself is under test: the caller runs it)
+		db.ZZMonitorReset(database)
+		n.abi.calls = nil
+		n.abi.commits, n.abi.reverts = 0, 0
+		return n
 	}
 	if err := n.ex.processGenesisBlock(&ProcessContext{ctx: context.Background(), block: n.genesis}); err != nil {
 		t.Fail("setup: genesis block rejected")
